@@ -63,8 +63,12 @@ func (self SyntaxError) description() string {
 }
 
 func calcBounds(size int, pos int) (lbound int, lwidth int, rbound int, rwidth int) {
-	if pos >= size || pos < 0 {
-		return 0, 0, size, 0
+	/* clamp positions outside the source (e.g. EOF errors at pos == size),
+	 * so that the excerpt stays bounded instead of quoting the whole input */
+	if pos < 0 {
+		pos = 0
+	} else if pos > size {
+		pos = size
 	}
 
 	i := 16
